@@ -260,3 +260,46 @@ Definition fold_dot_int (xs ys : list lit) : option lit :=
   | x :: _ => if Nat.eqb (length xs) (length ys) then Some (make_int_literal x (dot_i64 0 xs ys)) else None
   | [] => None
   end.
+
+(* ---- WGSL run-time f32 operations that are correctly rounded: + - * and the comparisons ---- *)
+Definition f32_rt (op : binop) (a b : Z) : option lit :=
+  let x := f32_of_bits a in let y := f32_of_bits b in
+  match op with
+  | BAdd => Some (LF32 (bits_of_f32 (Bplus mode_NE x y)))
+  | BSub => Some (LF32 (bits_of_f32 (Bminus mode_NE x y)))
+  | BMul => Some (LF32 (bits_of_f32 (Bmult mode_NE x y)))
+  | BEq => Some (LBool (match Bcompare x y with Some Eq => true | _ => false end))
+  | BNe => Some (LBool (match Bcompare x y with Some Eq => false | _ => true end))
+  | BLt => Some (LBool (match Bcompare x y with Some Lt => true | _ => false end))
+  | BLe => Some (LBool (match Bcompare x y with Some Lt | Some Eq => true | _ => false end))
+  | BGt => Some (LBool (match Bcompare x y with Some Gt => true | _ => false end))
+  | BGe => Some (LBool (match Bcompare x y with Some Gt | Some Eq => true | _ => false end))
+  | _ => None
+  end.
+
+(* correctly rounded f32 -> f16 (round to nearest even, subnormals, overflow to infinity), as f32 bits:
+   what WGSL's f16 conversion specifies, to compare roundToF16 with *)
+Lemma Hprec16 : FLX.Prec_gt_0 11. Proof. reflexivity. Qed.
+Lemma Hmax16 : Prec_lt_emax 11 16. Proof. reflexivity. Qed.
+Definition f16 := binary_float 11 16.
+Definition f16_of_f32 (x : f32) : f16 :=
+  match x with
+  | B754_zero s => B754_zero s | B754_infinity s => B754_infinity s | B754_nan => B754_nan
+  | B754_finite s m e _ => binary_normalize 11 16 Hprec16 Hmax16 mode_NE (cond_Zopp s (Zpos m)) e s
+  end.
+Definition f32_of_f16 (x : f16) : f32 :=
+  match x with
+  | B754_zero s => B754_zero s | B754_infinity s => B754_infinity s | B754_nan => B754_nan
+  | B754_finite s m e _ => binary_normalize 24 128 Hprec32 Hmax32 mode_NE (cond_Zopp s (Zpos m)) e s
+  end.
+Definition ieee_round_to_f16_bits (bits : Z) : Z := bits_of_f32 (f32_of_f16 (f16_of_f32 (f32_of_bits bits))).
+
+(* roundToF16 is NOT IEEE round-to-nearest-even: ties are rounded up and f16 subnormals keep 10 bits.
+   1 + 2^-11 (exactly between 1 and 1+2^-10): IEEE gives 1.0 (even), roundToF16 gives 1 + 2^-10;
+   2^-20 * (1 + 2^-10 + 2^-11) is not representable in f16 (subnormal spacing 2^-24): kept as is. *)
+Lemma round_to_f16_tie_refuted :
+  round_to_f16_bits 1065357312 = 1065361408 /\ ieee_round_to_f16_bits 1065357312 = 1065353216.
+Proof. split; vm_compute; reflexivity. Qed.
+Lemma round_to_f16_subnormal_refuted :
+  round_to_f16_bits 897589248 = 897589248 /\ ieee_round_to_f16_bits 897589248 = 897581056.
+Proof. split; vm_compute; reflexivity. Qed.
